@@ -11,7 +11,7 @@ start date against a window of end dates, 1000 month offsets ...); failures carr
 ['one', ...] case accepted by check()."""
 import datetime
 
-from ..core import WholeFloats, Sub, fail, isnum, enc, lit
+from ..core import Siblings, WholeFloats, Sub, fail, isnum, enc, lit
 
 D = datetime.date
 DT = datetime.datetime
@@ -731,4 +731,22 @@ class DateWholeFloats(WholeFloats):
     ]
 
 
-SUBS = [Ymd(), Weekday(), Time(), IsoText(), LowYears(), Pairs(), Deltas(), EdateLong(), EdateDays(), DateWholeFloats()]
+NEEDS_ZYGOTE = True
+
+
+class DateSiblings(Siblings):
+    name = 'c14.siblings'
+    GROUPS = [
+        (['YEAR({0})', 'MONTH({0})', 'DAY({0})', 'WEEKDAY({0})', 'WEEKDAY({0},2)', 'WEEKDAY({0},3)', 'HOUR({0})', 'MINUTE({0})',
+          'SECOND({0})', 'EDATE({0},1)', 'EDATE({0},-1)', 'DAYS({0},1)', 'DATEDIF(1,{0},"d")', 'DATEDIF(1,{0},"m")',
+          'DATEDIF(1,{0},"y")', 'DATEDIF(1,{0},"ym")'],
+         [(61,), (367,), (40000,), (45000.5,), ('2020-02-29',), ('2021-03-31T13:14:15',), (2,), (12,), (31,)]),
+        (['DATE({0},{1},{2})', 'TIME({0},{1},{2})', 'YEAR(DATE({0},{1},{2}))', 'MONTH(DATE({0},{1},{2}))',
+          'DAY(DATE({0},{1},{2}))', 'HOUR(TIME({0},{1},{2}))', 'MINUTE(TIME({0},{1},{2}))', 'SECOND(TIME({0},{1},{2}))',
+          'WEEKDAY(DATE({0},{1},{2}))', 'EDATE(DATE({0},{1},{2}),1)', 'DAYS(DATE({0},{1},{2}),DATE({0},1,1))',
+          'DATEDIF(DATE({0},1,1),DATE({0},{1},{2}),"m")'],
+         [(12, 5, 7), (1999, 12, 31), (23, 59, 59), (2000, 2, 29), (1900, 1, 1), (10, 10, 10), (2024, 1, 31)]),
+    ]
+
+
+SUBS = [Ymd(), Weekday(), Time(), IsoText(), LowYears(), Pairs(), Deltas(), EdateLong(), EdateDays(), DateWholeFloats(), DateSiblings()]
